@@ -50,7 +50,23 @@ def spec_verdicts(ctx, progs, tag="batch", chunk=4000):
 
 def job(prog):
     src, linemap = A.render(prog)
-    return {"id": prog["id"], "src": src, "entry": "main", "args": [], "validate": True}
+    return {"id": prog["id"], "src": src, "entry": "main"}
+
+
+def outcome(life: dict) -> dict:
+    """normalise a lifecycle record (lin_life.life_job): status ok | rejected | check-crash | machinery;
+    `lower` = key of a compile / validate failure after the checker accepted"""
+    import lin_life
+
+    if life.get("machinery") or not life["ev"]:
+        return {"status": "machinery", "error": life.get("machinery")}
+    e = life["ev"][0]
+    if e["out"] == "rejected":
+        return {"status": "rejected", "error": {"diag": e.get("cls"), "title": e.get("msg")}}
+    if e["out"] != "ok":
+        return {"status": "check-crash", "error": {"class": e.get("cls"), "where": e.get("where"), "msg": e.get("msg")}}
+    return {"status": "ok", "lower": lin_life.key_of(life),
+            "error": next((x for x in life["ev"] if x["out"] in ("exc", "err")), None)}
 
 
 def judge(prog, wits, res):
@@ -58,15 +74,19 @@ def judge(prog, wits, res):
     Returns None (agree) or (category, text)."""
     st = res["status"]
     kinds = {w[0] for w in wits}
-    if st == "machinery" or st == "syntax":
+    if st == "machinery":
         raise lib.Machinery(f"harness failure on program {prog['id']}: {res.get('error')}\n{A.render(prog)[0]}")
-    if st in ("crash", "invalid"):
-        # C01's business as well, but an accepted program that does not lower is also the
-        # observable of a missed linearity violation (dangling qubit wire)
-        return ("lowering:" + st, f"checker accepted, then {st}: {res['error']}")
+    if st == "check-crash":
+        e = res["error"]
+        return (f"checker-crash:{e['class']}:{e['where']}", f"the checker neither accepts nor rejects: {e}")
     if st == "ok":
+        # the checker accepted; a lowering failure afterwards is also how a missed linearity
+        # violation shows (dangling or doubly connected qubit wire)
         if kinds:
-            return ("unsound", f"/repo accepts; specification has witnesses {sorted(wits)[:4]}")
+            extra = f" (lowering then fails: {res['lower']})" if res.get("lower") else ""
+            return ("unsound", f"/repo's checker accepts; specification has witnesses {sorted(wits)[:4]}{extra}")
+        if res.get("lower"):
+            return ("lowering:" + res["lower"], f"checker accepted, then {res['error']}")   # C01's business
         return None
     assert st == "rejected", st
     diag = res["error"].get("diag") or res["error"].get("class")
@@ -83,11 +103,12 @@ def judge(prog, wits, res):
 
 def evaluate(ctx, progs, tag="batch"):
     """[(prog, witnesses, /repo result, judgement)] for every program"""
+    import lin_life
     import pool
-    import runner
 
     ver = spec_verdicts(ctx, progs, tag)
-    res = pool.map_jobs(runner.run_job, [job(p) for p in progs], chunksize=8, procs=1 if len(progs) < 48 else None)
+    res = pool.map_jobs(lin_life.life_job, [job(p) for p in progs], chunksize=8, procs=1 if len(progs) < 48 else None)
+    res = [outcome(r) for r in res]
     return [(p, ver[p["id"]], r, judge(p, ver[p["id"]], r)) for p, r in zip(progs, res)]
 
 
